@@ -691,6 +691,12 @@ def m3_to_etree(schema: Schema, rep: Report):
                 f"{loop.target.elts[1].id}.unconvert(getattr(self, {attr}))" if isinstance(loop.target.elts[1], ast.Name) else "",
             )
         rep.check("M3", "to_etree:data-element-text", okt, f"text is {got}, expected <converter of {attr}>.unconvert(getattr(self, {attr}))" if not okt else "", f"{rel}:{s.lineno}")
+    # the only values skipped are None (a falsy test would drop False, 0 and Decimal(0))
+    skips = [st for st in ast.walk(loop) if isinstance(st, ast.If) and any(isinstance(b, ast.Continue) for b in st.body)]
+    for sk in skips:
+        t = ex.t(sk.test)
+        ok = t in (f"getattr(self, {attr}) is None",)
+        rep.check("M3", "to_etree:skips-only-None", ok, f"children are skipped under `{t}`: values such as False, 0 or Decimal('0') would not be written" if not ok else "", f"{rel}:{sk.lineno}")
     apps = [n for n in nodes if isinstance(n, ast.Call) and isinstance(n.func, ast.Attribute) and n.func.attr == "append"]
     ok = any(ex.t(a.args[0]) == f"getattr(self, {attr}).to_etree()" for a in apps if a.args)
     rep.check("M3", "to_etree:subaggregate-recursion", ok, "no root.append(<child>.to_etree()) for sub-aggregates" if not ok else "", f"{rel}:{fn.lineno}")
